@@ -30,9 +30,19 @@
       from_kvarn_cache_control (integer * multiplier; RESPONSE header,
         not client input)                                               CacheControl             kvarn_cache_control_unchecked_never_panics,
                                                                                                  kvarn_cache_control_checked_refuted (known class)
+      handle_cache: if-modified-since (time crate's parser, creation - 1 s)  Ims.ims_fresh        if_modified_since_never_panics, _rule,
+                                                                                                 if_modified_since_plus_variant_refuted
+      stream_body: the whole loop (pos += read, &buf[..buf_end])        Panics.stream_loop       stream_body_never_panics
+      url_crawl::LinkIter (data[pos+1..], quote[..ending], data[..=pos],
+        data[advance..]; file / upstream content)                        UrlCrawl.link_iter       link_iter_never_panics; REPAIRED (fa13a8b),
+                                                                                                 link_iter_v0_refuted
+      kvarn-extensions templates: extract_templates / handle_template (file.slice x2,
+        unwrap x5, file[start..position - 1]; file content)             Templates.render         template_engine_never_panics; REPAIRED (fe1115a),
+                                                                                                 template_engine_v0_refuted
       is_part_of_origin / check_cors_request                            Cors (total functions)   stage of request_path
       http, time, moka, tokio, compressors, other extensions            not modelled             exploration run only *)
-From KV Require Import Bytes RustInt RustStd Panics PanicsProofs.
+From Coq Require Import ZArith.
+From KV Require Import Bytes RustInt RustStd Panics PanicsProofs Ims ImsProofs UrlCrawl UrlCrawlProofs Templates TemplatesProofs.
 From KV Require PathSan PathSanProofs Range RangeProofs RangeConn RangeConnProofs Http1Read Hosts HostsProofs
   Negotiate ListHeaderProofs Limiter LimiterProofs Nonce NonceProofs PresentLine PresentLineProofs CacheControl Cors.
 Open Scope N_scope.
@@ -69,6 +79,30 @@ Proof. exact PathSanProofs.request_fs_path_no_panic. Qed.
 Theorem list_header_never_panics : forall (parse_q : bytes -> option Negotiate.qclass) (h : bytes),
   exists l, Negotiate.list_header parse_q h = l /\ (length l <= S (ListHeaderProofs.commas h))%nat.
 Proof. intros parse_q h. eexists. split; [reflexivity|apply ListHeaderProofs.list_header_length_l]. Qed.
+
+(** [If-Modified-Since] on a cache hit ([handle_cache]): [to_str], the [time] crate's parser for [HTTP_DATE]
+    (fixed-width fields, names from fixed lists, literals, nothing after " GMT", the date must exist) and
+    [timestamp >= creation - 1.seconds()].  The only arithmetic is on the entry's creation time (the server's
+    clock), so NO header value can panic it — as long as the entry was not made in the first second of the year
+    -9999.  [creation] is the instant (seconds from 1970) the entry was made. *)
+Theorem if_modified_since_never_panics : forall (creation : Z) (hdr : option bytes),
+  (odt_min + 1 <= creation <= odt_max)%Z -> ims_fresh false creation hdr <> Panic.
+Proof. exact ims_fresh_no_panic. Qed.
+
+(** What it decides: "not modified" exactly for a value that is text, is an HTTP date and is not older than the
+    entry's creation minus one second; otherwise the page. *)
+Theorem if_modified_since_rule : forall (creation : Z) (hdr : option bytes),
+  (odt_min + 1 <= creation <= odt_max)%Z ->
+  (ims_fresh false creation hdr = Ok true <->
+   exists v ts, hdr = Some v /\ Http1Read.hv_to_str_ok v = true /\ parse_http_date v = Some ts /\ (creation - 1 <= ts)%Z) /\
+  (ims_fresh false creation hdr = Ok true \/ ims_fresh false creation hdr = Ok false).
+Proof. exact ims_fresh_spec. Qed.
+
+(** The equivalent-looking rewrite [timestamp + 1.seconds() >= creation] does its arithmetic on the CLIENT's date:
+    "Fri, 31 Dec 9999 23:59:59 GMT" panics the connection task on every cache hit, whenever the entry was made. *)
+Theorem if_modified_since_plus_variant_refuted : forall creation : Z,
+  ims_fresh true creation (Some last_second) = Panic.
+Proof. exact ims_plus_variant_panics. Qed.
 
 Theorem query_never_panics : forall q : bytes, query q <> Panic.
 Proof. exact query_no_panic. Qed.
@@ -110,6 +144,19 @@ Theorem stream_chunk_never_panics : forall (checked : bool) (pos read end_ : N),
   pos < end_ -> pos + read <= u64_max -> stream_chunk checked pos read end_ <> Panic.
 Proof. exact stream_chunk_no_panic. Qed.
 
+(** The whole of [stream_body]: for every Range header [sanitize_request] accepts, every file length and every
+    sequence of results of [file.read] (each at most the 64 KiB buffer; file offsets stay below 2^63, as the
+    kernel keeps them) the loop ends without panic — [pos += read], [read - (pos - end)], [&buf[..buf_end]]
+    included —, never sends more than the announced [content-length], and sends exactly it when the file
+    delivers that much.  The hypotheses of [stream_chunk_never_panics] are invariants of the loop. *)
+Theorem stream_body_never_panics : forall (checked : bool) (hdr : option bytes) (range : option (N * N)) (file_len : N)
+    (reads : list N) (start end_ len : N),
+  Range.sanitize_range hdr = Ok range -> stream_window checked range file_len = Ok (start, end_, len) ->
+  Forall (fun r => r <= stream_buf) reads -> start + nsum (live_reads reads) <= 9223372036854775807 ->
+  exists sent, stream_loop checked start end_ reads = Ok sent /\
+               nsum sent = N.min len (nsum (live_reads reads)) /\ nsum sent <= len.
+Proof. exact stream_body_no_panic. Qed.
+
 (** ** Served files that start with an extension line (not request bytes; part of the property's text) *)
 
 Theorem present_line_never_panics : forall data : bytes,
@@ -124,6 +171,34 @@ Theorem nonce_rewriter_never_panics : forall nonce body : bytes,
   Nonce.nonce_rewrite nonce body <> Panic /\ forall e, Nonce.nonce_rewrite nonce body <> Err e.
 Proof. exact NonceProofs.nonce_rewrite_total. Qed.
 
+(** ** [url_crawl::LinkIter] (anchor url-crawl/src/lib.rs; file / upstream content): the repaired iterator never panics,
+    for every filter function, both settings of [interdomain_links] and every text. *)
+Theorem link_iter_never_panics : forall (filter : bytes -> nat -> bool) (interdomain : bool) (data : bytes),
+  link_iter false filter interdomain data <> Panic.
+Proof. exact link_iter_no_panic. Qed.
+
+(** The code as it was ([&self.data[advance..]]): a quote that is not closed before the end of the data panics, under
+    both filters of the crate; the repaired code yields the link. *)
+Theorem link_iter_v0_refuted :
+  link_iter true filter_resource false unclosed = Panic /\ link_iter true filter_absolute false unclosed = Panic /\
+  link_iter false filter_resource false unclosed = Ok [IPath (B "/abc") (B "<img src=" ++ [34]) 1].
+Proof. exact link_iter_v0_panics. Qed.
+
+(** ** The template engine of kvarn-extensions ([!> tmpl <file>]: [handle_template] on the served page,
+    [extract_templates] on the operator's template file; file content): repaired, it never panics — for every
+    template file (or none) and every page body. *)
+Theorem template_engine_never_panics : forall (tfile : option bytes) (body : bytes), render false tfile body <> Panic.
+Proof. exact render_no_panic. Qed.
+
+(** [extract_templates] as it was ([file.slice(start..len - trim)]): a template file whose last template is empty and
+    ends in a line feed panics — on every request for a page that asks for a template (a page without a complete
+    placeholder never reads the file); the repaired code renders the empty template. *)
+Theorem template_engine_v0_refuted :
+  extract_templates true empty_last = Panic /\ render true (Some empty_last) (B "<p>$[a]</p>") = Panic /\
+  render false (Some empty_last) (B "<p>$[a]</p>") = Ok (B "<p></p>") /\
+  render true (Some empty_last) (B "<p>no placeholder $[</p>") = Ok (B "<p>no placeholder ").
+Proof. exact render_v0_panics. Qed.
+
 (** ** [kvarn-cache-control] (a RESPONSE header of a handler / upstream server, not client input) *)
 
 Theorem kvarn_cache_control_unchecked_never_panics : forall h : bytes,
@@ -135,16 +210,20 @@ Theorem kvarn_cache_control_checked_refuted :
   CacheControl.from_kvarn_cache_control true (B "4294967295d") = Panic.
 Proof. vm_compute. reflexivity. Qed.
 
-(** ** The request path: reader -> host choice -> sanitize -> CORS origin test -> cache key -> file path ->
-    query parsing -> negotiation -> cache -> range -> send, for every head, every read schedule and end
-    mode, every host collection the builder accepts, every page that fits in memory, every state of the
+(** ** The request path, in the code's order: reader (head, body) -> host choice (409) -> request limiter (drop, 429) ->
+    sanitize (path: 400; range with start > end: 416, before any Prime result counts) -> CORS gate (403, preflight 204; the
+    range stage of send applies to its pages)
+    -> cache key -> file path -> query parsing -> negotiation -> cache -> range -> send; for every head, every read
+    schedule and end mode, every host collection the builder accepts, every limiter configuration and every history
+    of earlier registrations on it (within usize::MAX / 3 calls), every page that fits in memory, every state of the
     response cache that is absent or holds this page, both arithmetic modes. *)
 Theorem request_path_never_panics :
   forall (grow : nat -> nat -> nat -> nat) (parse_q : bytes -> option Negotiate.qclass) (checked : bool) (mode : N) (https : bool)
-    (ops : list Hosts.op) (c : Hosts.collection) (dh : option bytes) (max_len : nat) (limit : N) (public : bytes)
+    (ops : list Hosts.op) (c : Hosts.collection) (dh : option bytes) (max_len : nat) (limit : N)
+    (lcfg : Limiter.config) (t0 : N) (lh : list Limiter.event) (addr now : N) (public : bytes)
     (cors_default_deny caching : bool) (pg : RangeConn.page) (cache : option RangeConn.page) (stream : bytes) (sched : list nat),
-  Hosts.build ops = Ok c -> RangeConn.page_fits pg -> RangeConn.cache_ok pg cache ->
-  request_path grow parse_q checked mode https c dh max_len limit public cors_default_deny caching pg cache stream sched <> Panic.
+  Hosts.build ops = Ok c -> Limiter.fits (S (length lh)) -> RangeConn.page_fits pg -> RangeConn.cache_ok pg cache ->
+  request_path grow parse_q checked mode https c dh max_len limit lcfg t0 lh addr now public cors_default_deny caching pg cache stream sched <> Panic.
 Proof. exact request_path_no_panic. Qed.
 
 (** ** Non-vacuity *)
@@ -165,7 +244,7 @@ Proof. repeat constructor; vm_compute; discriminate. Qed.
 (** A ranged request with a query string, delivered in three segments, reaches the last stage. *)
 Example ex_request_path_reply :
   match request_path Http1Read.vec_grow Negotiate.parse_q_dec true 0 false ex_coll (Some (B "localhost")) (N.to_nat 16384) 65536
-          (B "public") true true ex_page None
+          (Limiter.disable Limiter.default_config) 0 [] 1 0 (B "public") true true ex_page None
           (B "GET /a?x=1&y=2&x=3 HTTP/1.1" ++ [13; 10] ++ B "Host: b.example" ++ [13; 10] ++ B "Range: bytes=2-5" ++ [13; 10]
              ++ B "Accept-Encoding: gzip" ++ [13; 10; 13; 10]) [5; 40; 100]%nat with
   | Ok (PReply (RangeConn.WResp w) (Some _) qs (Some fs)) =>
@@ -178,7 +257,7 @@ Proof. vm_compute. repeat split. Qed.
 Example ex_bare_lf : Http1Read.parse_headers (B "A: " ++ [10; 13; 10]) = Ok ([(B "a", [])], 6%nat).
 Proof. vm_compute. reflexivity. Qed.
 Example ex_range_max :
-  match request_path Http1Read.vec_grow Negotiate.parse_q_dec true 0 false ex_coll (Some (B "localhost")) (N.to_nat 16384) 65536 (B "public") true false ex_page None
+  match request_path Http1Read.vec_grow Negotiate.parse_q_dec true 0 false ex_coll (Some (B "localhost")) (N.to_nat 16384) 65536 (Limiter.disable Limiter.default_config) 0 [] 1 0 (B "public") true false ex_page None
           (B "GET / HTTP/1.1" ++ [13; 10] ++ B "Range: bytes=0-18446744073709551615" ++ [13; 10; 13; 10]) [1000]%nat with
   | Ok (PReply (RangeConn.WResp w) _ _ _) => RangeConn.w_status w = 206 /\ RangeConn.w_content_range w = Some (B "bytes 0-9/10")
   | _ => False
@@ -186,14 +265,64 @@ Example ex_range_max :
 Proof. vm_compute. repeat split. Qed.
 (** Unsafe path, unknown host without default, a head cut off by EOF. *)
 Example ex_unsafe :
-  request_path Http1Read.vec_grow Negotiate.parse_q_dec true 0 false ex_coll (Some (B "localhost")) (N.to_nat 16384) 65536 (B "public") true false ex_page None
+  request_path Http1Read.vec_grow Negotiate.parse_q_dec true 0 false ex_coll (Some (B "localhost")) (N.to_nat 16384) 65536 (Limiter.disable Limiter.default_config) 0 [] 1 0 (B "public") true false ex_page None
     (B "GET /../x HTTP/1.1" ++ [13; 10; 13; 10]) [1000]%nat = Ok P400.
 Proof. vm_compute. reflexivity. Qed.
 Example ex_closed :
-  request_path Http1Read.vec_grow Negotiate.parse_q_dec true 0 false ex_coll None (N.to_nat 16384) 65536 (B "public") true false ex_page None
+  request_path Http1Read.vec_grow Negotiate.parse_q_dec true 0 false ex_coll None (N.to_nat 16384) 65536 (Limiter.disable Limiter.default_config) 0 [] 1 0 (B "public") true false ex_page None
     (B "GET / HTTP/1.1") [1000]%nat = Ok (PClosed Http1Read.E_UNEXPECTED_END).
 Proof. vm_compute. reflexivity. Qed.
+(** The order of the stages: an unsafe path wins over a foreign Origin (400), a refused range too (416); a foreign Origin is
+    403, also for a preflight; a same-origin preflight is answered 204 by the default gate; a limiter that allows one
+    request per window answers the second 429 and drops the fifth. *)
+Definition ex_head (lines : list bytes) : bytes := concat (map (fun l => l ++ [13; 10]) lines) ++ [13; 10].
+Definition ex_path (lcfg : Limiter.config) (lh : list Limiter.event) (lines : list bytes) : outcome path_result :=
+  request_path Http1Read.vec_grow Negotiate.parse_q_dec true 0 false ex_coll (Some (B "localhost")) (N.to_nat 16384) 65536
+    lcfg 0 lh 1 5 (B "public") true false ex_page None (ex_head lines) [1000]%nat.
+Definition ex_status (o : outcome path_result) : option N :=
+  match o with
+  | Ok (PGate Range.R416) => Some 416
+  | Ok (PGate (Range.RResp r)) => Some (Range.r_status r)
+  | _ => None
+  end.
+Definition ex_lim : Limiter.config := {| Limiter.max_requests := 1; Limiter.check_every := 1; Limiter.reset_after := Some 300 |}.
+Example ex_order :
+  ex_path (Limiter.disable Limiter.default_config) [] [B "GET /../x HTTP/1.1"; B "Origin: http://evil"] = Ok P400 /\
+  (match ex_path (Limiter.disable Limiter.default_config) [] [B "GET /x HTTP/1.1"; B "Origin: http://evil"; B "Range: bytes=5-2"] with
+   | Ok (PReply RangeConn.W416 _ _ _) => True | _ => False end) /\
+  ex_status (ex_path (Limiter.disable Limiter.default_config) [] [B "GET /x HTTP/1.1"; B "Origin: http://evil"]) = Some 403 /\
+  ex_status (ex_path (Limiter.disable Limiter.default_config) [] [B "OPTIONS /x HTTP/1.1"; B "Origin: http://evil"; B "Access-Control-Request-Method: PUT"]) = Some 403 /\
+  ex_status (ex_path (Limiter.disable Limiter.default_config) [] [B "OPTIONS /x HTTP/1.1"; B "Origin: http://localhost"; B "Access-Control-Request-Method: PUT"]) = Some 204 /\
+  (* the range stage of send applies to the gate's pages too: 19 bytes of denial, an empty preflight answer *)
+  ex_status (ex_path (Limiter.disable Limiter.default_config) [] [B "GET /x HTTP/1.1"; B "Origin: http://evil"; B "Range: bytes=19-30"]) = Some 416 /\
+  ex_status (ex_path (Limiter.disable Limiter.default_config) [] [B "GET /x HTTP/1.1"; B "Origin: http://evil"; B "Range: bytes=18-30"]) = Some 403 /\
+  ex_path ex_lim [(1, 1)] [B "GET /x HTTP/1.1"] = Ok P429 /\
+  ex_path ex_lim [(1, 1); (1, 2); (1, 3); (1, 4)] [B "GET /x HTTP/1.1"] = Ok PDropped.
+Proof. vm_compute. repeat split. Qed.
 Example ex_get_last : query_script false (B "a=1&b=2&a=3") (B "a") [true; false; false] = Ok [Some (B "3"); Some (B "1"); None].
+Proof. vm_compute. reflexivity. Qed.
+(** A date in the past: the page; the same date a few hundred years on: not modified; a day that does not exist,
+    a 61st second, a fifth digit in the year, a lower-case month: no date at all. *)
+Example ex_ims :
+  ims_fresh false 1790000000 (Some (B "Tue, 27 Jul 2021 14:08:15 GMT")) = Ok false /\
+  ims_fresh false 1790000000 (Some (B "Fri, 27 Jul 2421 14:08:15 GMT")) = Ok true /\
+  ims_fresh false 1790000000 (Some (B "Xxx, 27 Jul 2421 14:08:15 GMT")) = Ok false /\
+  parse_http_date (B "Mon, 27 Jul +2421 14:08:15 GMT") = parse_http_date (B "Fri, 27 Jul 2421 14:08:15 GMT") /\
+  parse_http_date (B "Thu, 01 Jan 1970 00:00:00 GMT") = Some 0%Z /\
+  parse_http_date (B "Tue, 31 Jun 2021 00:00:00 GMT") = None /\ parse_http_date (B "Tue, 27 Jul 2021 23:59:60 GMT") = None /\
+  parse_http_date (B "Tue, 27 Jul 99999 14:08:15 GMT") = None /\ parse_http_date (B "Tue, 27 jul 2021 14:08:15 GMT") = None /\
+  parse_http_date (B "Sat, 29 Feb 2020 12:00:00 GMT") = Some 1582977600%Z /\ parse_http_date (B "Mon, 29 Feb 2100 12:00:00 GMT") = None.
+Proof. vm_compute. repeat split. Qed.
+(** Templates: placeholders, an escaped one, an escaped escape, an unknown name, the tmpl-ignore line. *)
+Example ex_render :
+  render false (Some (B "$[head]" ++ [10] ++ B "<h1>" ++ [10] ++ B "$[x] X" ++ [10]))
+         (B "<!-- tmpl-ignore -->" ++ [10] ++ B "$[head]|$[x]|\$[x]|\\$[x]|$[none]|$[") =
+  Ok (B "<h1>|X|$[x]|\X||").
 Proof. vm_compute. reflexivity. Qed.
 Example ex_stream_window : stream_window true (Some (2, 6)) 10 = Ok (2, 6, 4).
 Proof. vm_compute. reflexivity. Qed.
+(** A 70000-byte file, the window 65535..65537 straddles the first buffer: two reads, chunks of 1 and 1 byte. *)
+Example ex_stream_loop : stream_loop true 65535 65537 [1; 4464; 0] = Ok [1; 1]
+  /\ stream_reply true (Some (65535, 65537)) 70000 = Ok (2, 2) /\ stream_reply true None 200000 = Ok (200000, 200000)
+  /\ stream_reply true (Some (5, 2001)) 1000 = Ok (1996, 995).
+Proof. vm_compute. repeat split. Qed.
